@@ -26,9 +26,42 @@ theorem int_comparison_exact (a b : Int) :
   · have h1 := compare_int_lt a b
     cases h : compare a b <;> simp_all <;> omega
 
-/-- decimal64 values of one leaf are integers scaled by the same power of ten: same order -/
-theorem dec_comparison_exact (a b : Int) (op : Op) :
-    evalCmp op (some (.dec a)) (.dec b) = evalCmp op (some (.int a)) (.int b) := rfl
+/-- **numbers with a fraction compare as the numbers they denote**: a/10^s against b/10^t is decided on
+    a·10^t against b·10^s, which is the same comparison with both sides multiplied by 10^(s+t) > 0 - nothing is
+    rounded, and neither side has to be a value of the other's type (`u8 < 300`, `i32 > 1.5`) -/
+theorem dec_comparison_exact (a b : Int) (s t : Nat) :
+    evalCmp .eq (some (.dec a s)) (.dec b t) = decide (a * 10 ^ t = b * 10 ^ s) ∧
+    evalCmp .lt (some (.dec a s)) (.dec b t) = decide (a * 10 ^ t < b * 10 ^ s) ∧
+    evalCmp .gt (some (.dec a s)) (.dec b t) = decide (a * 10 ^ t > b * 10 ^ s) := by
+  simp only [evalCmp, ord, holds]
+  exact ⟨compare_int_eq _ _, compare_int_lt _ _, compare_int_gt _ _⟩
+
+/-- an integer leaf against a literal with a fraction, and a decimal leaf against a whole literal -/
+theorem int_dec_comparison_exact (a b : Int) (t : Nat) (op : Op) :
+    evalCmp op (some (.int a)) (.dec b t) = evalCmp op (some (.dec a 0)) (.dec b t) ∧
+    evalCmp op (some (.dec b t)) (.int a) = evalCmp op (some (.dec b t)) (.dec a 0) := by
+  simp [evalCmp, ord]
+
+/-- values of one decimal64 leaf (one scale) order like their scaled integers -/
+theorem dec_same_scale (a b : Int) (s : Nat) :
+    evalCmp .lt (some (.dec a s)) (.dec b s) = decide (a < b) ∧ evalCmp .eq (some (.dec a s)) (.dec b s) = decide (a = b) := by
+  have hp : (0 : Int) < 10 ^ s := Int.pow_pos (by decide)
+  have h1 := (dec_comparison_exact a b s s).2.1
+  have h0 := (dec_comparison_exact a b s s).1
+  rw [h1, h0]
+  constructor
+  · by_cases h : a < b
+    · simp [h, Int.mul_lt_mul_of_pos_right h hp]
+    · have : ¬ a * 10 ^ s < b * 10 ^ s := fun hc => h (Int.lt_of_mul_lt_mul_right hc (Int.le_of_lt hp))
+      simp [h, this]
+  · by_cases h : a = b
+    · simp [h]
+    · have : ¬ a * 10 ^ s = b * 10 ^ s := fun hc => h (Int.eq_of_mul_eq_mul_right (Int.ne_of_gt hp) hc)
+      simp [h, this]
+
+example : evalCmp .lt (some (.int 200)) (.int 300) = true ∧ evalCmp .gt (some (.int 2)) (.dec 15 1) = true ∧
+    evalCmp .lt (some (.int 2)) (.dec 25 1) = true ∧ evalCmp .eq (some (.int 2)) (.dec 20 1) = true ∧
+    evalCmp .gt (some (.dec 250 2)) (.int 2) = true ∧ evalCmp .eq (some (.dec 150 2)) (.dec 15 1) = true := by decide
 
 /-- strings compare by their characters, booleans by truth value, enumerations by name for (in)equality -/
 theorem str_eq_exact (a b : String) : evalCmp .eq (some (.str a)) (.str b) = decide (a = b) := by
